@@ -40,3 +40,11 @@ Theorem C05_message_no_effect : forall c e,
   e_kind e = 1 \/ e_kind e = 3 -> rollbacks (fst (deliver c e)) = rollbacks c -> gstate (fst (deliver c e)) = gstate c.
 Proof. exact message_no_effect. Qed.
 Print Assumptions C05_message_no_effect.
+
+(* a commit that would change a member's identity (another Nostr key in the credential of its path or update leaf,
+   whether or not the MLS signature key is kept) is refused by every receiver and never moves the group state *)
+Theorem C05_identity_change_commit_frame : forall c e,
+  e_kind e = 0 -> e_author e <> me c -> e_bad e = 8 ->
+  rollbacks (fst (deliver c e)) = rollbacks c -> gstate (fst (deliver c e)) = gstate c.
+Proof. exact identity_change_commit_frame. Qed.
+Print Assumptions C05_identity_change_commit_frame.
